@@ -102,7 +102,9 @@ func (w workflowEngine) Parse(
 		return nil, err
 	}
 	if stepWorkflowFileCache != nil {
-		files, err = loadfile.MergeFileCaches(stepWorkflowFileCache, files)
+		// The sub-workflow files come last: a loop step must get the file it names, even if the caller happens to
+		// have registered this workflow itself under the same key (which would make it its own sub-workflow).
+		files, err = loadfile.MergeFileCaches(files, stepWorkflowFileCache)
 		if err != nil {
 			return nil, err
 		}
